@@ -11,6 +11,9 @@ from paths import Renderer
 from loops import normal_for, enclosing_fors
 
 
+_MODE = ['throw']
+
+
 def _then_only_throws(f, ifn):
     if 'else' in ifn:
         return False
@@ -19,7 +22,59 @@ def _then_only_throws(f, ifn):
     if len(stmts) != 1:
         return False
     s = f.nodes[f.strip(stmts[0], 'all')]
+    if _MODE[0] == 'reason':
+        # inside a reason-returning checker a refusal is `return <non-null>`
+        if f.nodes[stmts[0]]['k'] == 'ReturnStmt' or s['k'] == 'ReturnStmt':
+            rs = f.nodes[stmts[0]] if f.nodes[stmts[0]]['k'] == 'ReturnStmt' else s
+            if rs.get('ch'):
+                rv = f.nodes[f.strip(rs['ch'][0], 'all')]
+                return rv['k'] not in ('CXXNullPtrLiteralExpr', 'GNUNullExpr') and str(rv.get('cv')) not in ('0', 'False', 'false')
+        return False
     return s['k'] == 'CXXThrowExpr'
+
+
+def helper_facts(f):
+    """forall-facts and equalities established for f by a reason-returning checker whose non-null result f throws on:
+    -> (facts in f's terms anchored at the test in f, equalities (x, y, node in f))"""
+    try:
+        import validators
+        from codec import substitute
+    except ImportError:
+        return [], []
+    R = Renderer(f)
+    facts, eqs = [], []
+    for ifn in f.all_nodes({'IfStmt'}):
+        if not _then_only_throws(f, ifn):
+            continue
+        c = f.nodes[f.strip(ifn['cond'], 'all')]
+        rc = None
+        if c['k'] == 'BinaryOperator' and c['op'] == '!=':
+            for a_, b_ in ((c['ch'][0], c['ch'][1]), (c['ch'][1], c['ch'][0])):
+                bn = f.nodes[f.strip(b_, 'all')]
+                if bn['k'] in ('CXXNullPtrLiteralExpr', 'GNUNullExpr') or str(bn.get('cv')) == '0':
+                    rc = validators.reason_call(f.prog, f, a_)
+                    if rc:
+                        break
+        elif c['k'] in ('DeclRefExpr', 'CallExpr'):
+            rc = validators.reason_call(f.prog, f, c['id'])
+        if not rc:
+            continue
+        cn, cf, gs = rc
+        sub = {'arg%d' % j: re.sub(r'^\*\((.*)\)$', r'\1', R.render(a_)) for j, a_ in enumerate(f.call_args(cn))}
+        if f.call_obj(cn) is not None:
+            sub['this'] = re.sub(r'^\*\((.*)\)$', r'\1', R.render(f.call_obj(cn)))
+        _MODE[0] = 'reason'
+        try:
+            cfacts = facts_of(cf)
+            ceqs = equalities(cf)
+        finally:
+            _MODE[0] = 'throw'
+        for fa in cfacts:
+            facts.append({'size': substitute(fa['size'], sub), 'n': substitute(fa['n'], sub), 'ranges': [substitute(r_, sub) for r_ in fa['ranges']],
+                          'loop': ifn['id'], 'if': ifn['id'], 'strict': fa['strict'], 'anchor': f.strip(ifn['cond'], 'all'), 'after': True})
+        for x, y, _cid in ceqs:
+            eqs.append((substitute(x, sub), substitute(y, sub), f.strip(ifn['cond'], 'all')))
+    return facts, eqs
 
 
 def split_or(f, i):
@@ -152,7 +207,8 @@ def covered(f, call_node, obj_render, cont, idx_node):
         if lf and lf['start_cv'] == '0' and lf['op'] == '<':
             scope[lf['name']] = R.render(lf['bound'])
     idx = f.nodes[f.strip(idx_node, 'all')]
-    eqs = equalities(f)
+    hfacts, heqs = helper_facts(f)
+    eqs = equalities(f) + heqs
 
     def same(a, b, at):
         a = re.sub(r'^\((?:unsigned |signed )?\w[\w ]*\)(?=[\w(])', '', a)
@@ -164,7 +220,7 @@ def covered(f, call_node, obj_render, cont, idx_node):
             if {x, y} == {a, b} and iv is not None and g.dominates(iv, at):
                 return True
         return False
-    for fact in facts_of(f):
+    for fact in facts_of(f) + hfacts:
         # the validation nest must be complete before the access: its loop header dominates the
         # access and the access is not inside the nest
         lv = g.vertex_of.get(fact['anchor']) if fact.get('anchor') is not None else g.vertex_of.get(f.nodes[fact['loop']].get('cond', -1))
